@@ -16,7 +16,9 @@ def run(ctx):
     ctx.cov["trusted_base"] = ["TLC 1.8.0", "java.math.BigInteger (BigNat override)", "SM2.tla / ECurve.tla / SM3.tla (anchored by the GM/T 0003.5 and GM/T 0004 examples)"]
     ctx.tlc("ECurveKAT", "ECurveKAT.cfg", workers=1)
     rk = lambda: hex(rnd.randrange(2, N - 1))[2:]
-    special = [hex(d)[2:] for d, _, _ in find_special_keys(ctx, 1500 if thorough else 400)]
+    sk = find_special_keys(ctx, 1500 if thorough else 400)
+    special = [hex(d)[2:] for d, _, _ in sk]
+    shortx = [hex(d)[2:] for d, xl, _ in sk if xl < 32]      # x~ = 2^w + (x & (2^w - 1)) is taken from the ephemeral x: short ones matter
     # ephemeral keys that make a coordinate of the shared point short (leading zero byte): TLC searches
     da, db, rb = rk(), rk(), rk()
     ids = lambda n: {"kind": "absent"} if n == 0 else {"kind": "len", "n": n}
@@ -33,6 +35,11 @@ def run(ctx):
         cases.append({"kind": "kx", "da": rk(), "db": rk(), "ra": rk(), "rb": rk(), "ida": ids(idl[i % len(idl)]), "idb": ids(idl[(i + 1) % len(idl)]), "klen": klen})
     for s in special[:3]:
         cases.append({"kind": "kx", "da": s, "db": rk(), "ra": rk(), "rb": special[-1], "ida": {"kind": "default"}, "idb": ids(16), "klen": 16, "note": "short long-term / ephemeral coordinates"})
+    for i, s in enumerate(shortx[:6 if thorough else 4]):
+        # an ephemeral key whose x has a leading zero byte, once on each side
+        c = {"kind": "kx", "da": rk(), "db": rk(), "ra": rk(), "rb": rk(), "ida": ids(2), "idb": ids(5), "klen": 16, "note": "ephemeral x with a leading zero byte"}
+        c["ra" if i % 2 == 0 else "rb"] = s
+        cases.append(c)
     cases.append({"kind": "kx", "da": "1", "db": hex(N - 2)[2:], "ra": "2", "rb": "3", "ida": {"kind": "default"}, "idb": {"kind": "default"}, "klen": 16})
     rows = tlc_table(ctx, cases, "kx")
     bad = [dict(cases[5], bad="offcurve"), dict(cases[5], bad="infinity")]
